@@ -23,7 +23,7 @@ theorem loadRecord_walk (env : Env) (a : LoadAcc) (b : Bytes) :
   unfold loadRecord isInvalidRec walkOf
   simp only
   split
-  · split <;> rfl
+  · split <;> exact (bumpInvalid_fields a _ b).2.2.1
   · rfl
 
 theorem loadLoop_walk (env : Env) : ∀ (fuel : Nat) (file : Bytes) (a : LoadAcc),
